@@ -27,7 +27,7 @@ import re
 ID = "C19"
 LEVEL = "exploration"
 IN_PROCESS = False
-CHUNK_TIMEOUT = 1500
+CHUNK_TIMEOUT = 3000
 RULE = (
     "the cases of C18 restricted to assertion generation SIMPLE / MUTATION_ANALYSIS (SUT corpus whose interesting value is often the "
     "result of the last call, x seeds x algorithms x no_xfail x black x post_process on/off x minimisation strategy); each case is one "
